@@ -19,10 +19,10 @@ def gen_case(rng, tier):
 
     def write():
         r = rng.random()
-        if r < 0.3:
+        if r < 0.4:
             # identical sub-tries: same suffix+value under two different first bytes
-            suffix = bytes(rng.choice(HX.ALPHA) for _ in range(rng.randint(1, 2)))
-            return ("set", bytes([rng.choice(HX.ALPHA)]) + suffix, rng.choice(shared_vals), "meth")
+            suffix = rng.choice([b"\x11", b"\x11\x12", b"\x00"])
+            return ("set", bytes([rng.choice([0x00, 0x10, 0x01])]) + suffix, rng.choice(shared_vals), "meth")
         if r < 0.4 and m:
             k = rng.choice(sorted(m))
             return ("set", k, m[k], "item")             # no-op rewrite
@@ -124,7 +124,8 @@ def check(tier, seed):
         R.count("with_shared_nodes", 1 if stats["shared"] else 0)
         R.count("batches", stats["batch"])
         if bad:
-            R.spec_violations.append((bad, {"prune": True, "ops": ops}))
+            small = C.shrink_list(ops, lambda o: run_and_check(o)[1] is not None)
+            R.spec_violations.append((run_and_check(small)[1] or bad, {"prune": True, "ops": small}))
         if stats["shared"] and stats["batch"]:
             R.nontrivial.add(C.case_key(ops))
             if len(R.samples) < 2:
